@@ -527,8 +527,8 @@ def case_func(c):
                             dm, ds = 0.25, 1.5
                         elif mode == 'sup:own':
                             dm, ds = float(st.mean), float(st.std)
-                        else:
-                            dm, ds = float(x[0]), 0.0
+                        else:                      # zero deviation, mean deliberately NOT the sample value
+                            dm, ds = float(x[0]) + 1.5, 0.0
                         kw.update(data_mean=dm, data_std=ds)
                         me, se, s_ = False, False, None
                     q = call(site, lambda: Q.quantize_real(x, **kw), const_in, sub)
